@@ -140,6 +140,16 @@ PROPS = {
                    "thorough": "adds 2x2, size 3, preemption bound 3"},
         "assumptions": COMMON_ASSUME + ["threads are interleaved at visible operations only (sync/atomic, Mutex, Cond, channel, WaitGroup, time.Sleep, go); code between two visible operations of a thread is assumed not to race with other threads", "package context's own synchronisation is trusted: its operations are atomic steps", "sync.Pool (bufPool) is a LIFO free list; time.Sleep = 'time passes when nothing else can run'", "schedule counterexamples are reported from the engine's exploration (kinds assert/deadlock are engine-only for these properties: the native replay cannot force a schedule without instrumenting the diode sources)", "fewer than 2^64 ring positions are claimed in the life of a diode"],
     },
+    "C16": {
+        "groups": [{"name": "json", "tags": "verif", "run": "^VH_C16_", "flags": {"harness-timeout": 280},
+                    "quick": {"params": "fields=2,strlen=3"}, "thorough": {"params": "fields=3,strlen=4", "harness-timeout": 3000, "max-paths": 5000000}}],
+        "level": "model_checking",
+        "bounds": {
+            "claimed": "writeFields + orderFields on a symbolic decoded event of <= 2 (thorough 3) fields whose names are drawn from {symbolic letter, 'error', '', a part name, 'f'+symbolic letter, 'zz'} and values from {string, json.Number, other->InterfaceMarshalFunc}, FieldsExclude empty or one name, with and without already-written parts, against a reference rendering (error first, rest byte-lexical; with FieldsOrder: named fields first in that order, rest lexical); needsQuote on all strings of <= 3 (thorough 4) symbolic bytes against the byte-wise definition, and its wiring to string values; writePart over sequences of <= 3 parts from the four standard names + one extra, any single PartsExclude, present or absent values",
+            "not_claimed": "that Write succeeds and returns the full length for every event, JSON decoding (encoding/json), timestamp/level/caller/message rendering, number digits, strconv.Quote's escaping (stub: quotes around the raw text), colours (fmt), determinism of the whole; map iteration order is fixed insertion order in the engine (the code sorts, so order-independence holds by construction of the reference comparison only for the explored order)",
+        },
+        "assumptions": COMMON_ASSUME + ["formatters are harness stubs (name=, S/N/J+value)", "sort.Strings/sort.Search executed from real SSA; sort.Slice = insertion sort driven by the real less closure", "strconv.Quote and fmt.Fprint are stubs"],
+    },
     "C18": {
         "groups": [{"name": "hlog", "tags": "verif", "run": "^VH_C18_",
                     "quick": {"params": "ops=3"}, "thorough": {"params": "ops=5", "harness-timeout": 3000, "max-paths": 5000000}}],
@@ -209,6 +219,11 @@ NOT_APPLICABLE = [
 ]
 
 MANIFEST_TEXT = {
+    "C16": {
+        "level_text": "Reduced scope: bounded model checking of the logic zerolog itself wrote on top of the decoded event map (field selection, exclusion, ordering, quoting decision, part dispatch and spacing) on symbolic events with recording formatters, against reference renderings written in the harness.",
+        "design_ref": "DESIGN.md §3 C16",
+        "level_note": "ConsoleWriter.Write as a whole (encoding/json decoding, fmt, strconv.Quote, time parsing/formatting, os.Getwd) cannot be encoded within reach and is not claimed.",
+    },
     "C18": {
         "level_text": "Bounded model checking: the response-accounting proxy is run under symbolic call sequences with symbolic accepted counts against a reference model (fully claimed); request isolation is decided as freshness + write-set lemmas on the real NewHandler / field handlers with net/http reduced to stubs (reduced scope).",
         "design_ref": "DESIGN.md §3 C18",
